@@ -1,7 +1,7 @@
 """C09 - most_specific mode picks the most specific matching rule, whatever the order.
 
 Exhaustive: every ordered sequence (= every subset in every permutation) of <= K distinct rules over a
-13-rule alphabet that varies priority, number of pattern functions, constraint kinds, pattern length,
+16-rule alphabet that varies priority, number of pattern functions, constraint kinds, pattern length,
 subcategory set/unset, categorising/tag-only, and contains two exact-tie pairs; x 18 transactions; through
 MerchantEngine.match(match_mode='most_specific') and get_all_rules/normalize_merchant(match_mode=...).
 The expected winner is computed from a rank key derived from the AST of each match expression.
@@ -15,7 +15,7 @@ from mc.checks import rules_common as R
 
 PROPERTY = "C09"
 LEVEL = "exploration"
-RULE = ("cases = every ordered sequence of 1..K distinct rules (K=4 quick, 5 thorough) over a 13-rule alphabet "
+RULE = ("cases = every ordered sequence of 1..K distinct rules (K=4 quick, 5 thorough) over a 16-rule alphabet "
         "(priority unset/0/10/90; 1 or 2 pattern functions; constraint kinds none/amount/amount+month/source; short/long patterns; "
         "subcategory set/unset; one tag-only rule; exact-tie pairs (contains vs regex with equal key, amount vs source constraint)); "
         "each on 18 transactions via engine.match and normalize_merchant in most_specific mode. "
@@ -41,6 +41,12 @@ RULES = [
     {"name": "r11", "match": 'contains("UB")', "category": "K", "subcategory": "k"},
     # explicit priority 0 (falsy) on an otherwise very specific rule: must lose to every rule of higher priority
     {"name": "r12", "match": 'contains("UBER") and contains("TRIP") and amount > 0', "category": "L", "subcategory": "l", "priority": 0},
+    # lowest-ranked rule that shares its category with r4 (which sets no subcategory): the subcategory still comes from the
+    # highest-ranked matching rule that sets one, whatever its category
+    {"name": "r13", "match": 'contains("U")', "category": "E", "subcategory": "e2"},
+    # a let: binding is local to its rule: r15 reads a name only r14 binds, so r15 never matches, wherever it stands
+    {"name": "r14", "let": [("m", 'contains("UBER")')], "match": "m and amount > 0", "category": "M", "subcategory": "m"},
+    {"name": "r15", "match": "m", "category": "N", "subcategory": "n", "priority": 95},
 ]
 PATTERN_FUNCS = {"contains", "regex", "normalized", "startswith", "fuzzy", "anyof"}
 KINDS = {"amount", "date", "month", "year", "day", "weekday", "source"}
